@@ -46,6 +46,9 @@ QUALS = ["onmatch", "onchange", "asbool", "nocontrib", "latch", "increase", "dec
 ARB = ["total", "my_name", "k9", "x", "Frogs", "ByLast", "UPPER", "camelCase"]
 HEADERS = ["a", "b2", "first_name", "Order Number", "x_y", "0", "12", "Last Year Number", ".ext", "a.b", "v1.2 beta", "No."]
 STRCH = list("abcXYZ 019_-+*/\\!?,;:%&()<>{}|^@#'`.=$[]")
+# outer comments without mode settings (free text avoids ~ [ ] $, the characters C15's statement excludes from comment text)
+OUTER = ["A plain outer comment, author: me description: layout test", "just a note, nothing else", "a trailing remark",
+         "100% done! (see #12) & more; mail a@b.c", "two lines\n   of remarks, title: T1", "parens (y) and braces {z}, 3 < 4 > 2"]
 _FNS = None
 
 
@@ -87,7 +90,7 @@ def _term(draw):
         return ["t", draw(st.sampled_from([0.5, 1.0, 12.25, 100.125, 3.0]))]
     if k == "neg":
         return ["t", draw(st.sampled_from([-1, -30, -0.5, -12.25]))]
-    return ["rx", draw(st.sampled_from(["ab+c", "^x.*y$", "[a-z]+", "\\\\d{2}", "a|b", "(foo)?bar"]))]
+    return ["rx", draw(st.sampled_from(["ab+c", "^x.*y$", "[a-z]+", "\\\\d{2}", "a|b", "(foo)?bar", 'said "yes"', '"+', "it's", "a b"]))]
 
 
 def _quals(draw):
@@ -405,7 +408,7 @@ def run_case(case, sb):
                 if case["prog"].get("mode") == "OR":
                     full = "~ logic-mode: OR ~ " + full
                 elif i == 2:
-                    full = "~ A plain outer comment, author: me description: layout test ~\n" + full
+                    full = f"~ {lays[0].pick(OUTER)} ~\n" + full
                 from csvpath import CsvPath
                 try:
                     m = CsvPath().parse(full, disposably=True)
@@ -427,8 +430,8 @@ def run_case(case, sb):
                     def pre(p, api=api):
                         setattr(p, api, True)
                     plain = f"${rel}[{case['scan']}]{texts[0]}"
-                    noted = "~ just a note, nothing else ~\n" + plain
-                    after = plain + "\n~ a trailing remark ~"
+                    noted = f"~ {lays[0].pick(OUTER)} ~\n" + plain
+                    after = plain + f"\n~ {lays[0].pick(OUTER)} ~"
                     ra = real.run_path(plain, pre=pre)
                     for other in (noted, after):
                         rb = real.run_path(other, pre=pre)
